@@ -137,8 +137,9 @@ Inductive node :=
 
 (* ---------------------------------------------------------------- runtime values *)
 (* state of a wrapper that matters to the impls *)
-Inductive gstate := GSok | GSabsent | GSblocked.
-(* Option: None = GSabsent.  RefCell: mutably borrowed = GSblocked.  Rc/Arc: shared = GSblocked.
+Inductive gstate := GSok | GSabsent | GSblocked | GSshared.
+(* Option: None = GSabsent.  RefCell: mutably borrowed = GSblocked, immutably borrowed = GSshared (reads and &mut access
+   still work, try_borrow_mut does not).  Rc/Arc: shared = GSblocked.
    Mutex/RwLock: poisoned = GSblocked.  Weak: dead = GSabsent, alive = GSok. *)
 Inductive gerr := GAbsent | GAccess.
 Definition gate_err (g : gkind) (o : op) (s : gstate) : option gerr :=
@@ -154,6 +155,7 @@ Definition gate_err (g : gkind) (o : op) (s : gstate) : option gerr :=
   | GMutex, _, GSblocked => Some GAccess
   | GRwLock, _, GSblocked => Some GAccess
   | GRefRefCell, (OSer | ODe), GSblocked => Some GAccess
+  | GRefRefCell, ODe, GSshared => Some GAccess
   | (GRcWeak | GArcWeak), _, GSabsent => Some GAbsent
   | (GRcWeak | GArcWeak), ODe, _ => Some GAccess     (* upgrade() then Rc::get_mut on a shared Rc *)
   | _, _, _ => None
